@@ -237,6 +237,9 @@ func genSCIONBase(t *rapid.T, v *victim, r *rig, target string) (wire.Pkt, []*sl
 	switch rapid.SampledFrom([]string{"ntp", "ntp", "scmp-echo", "scmp-tr", "scmp-other", "udp-app", "nts"}).Draw(t, "l4") {
 	case "ntp":
 		p.Payload, p.DstPort = ntpHeader(t), vSCIONPort
+		if rapid.IntRange(0, 3).Draw(t, "ntp-other-port") == 0 {
+			p.DstPort = uint16(rapid.SampledFrom([]int{0, 1, 30041, 123, appPortC08}).Draw(t, "ntp-port"))
+		}
 	case "nts":
 		b, _ := validNTSRequest(t, v)
 		switch rapid.IntRange(0, 2).Draw(t, "mutnts") {
@@ -246,6 +249,11 @@ func genSCIONBase(t *rapid.T, v *victim, r *rig, target string) (wire.Pkt, []*sl
 			b = oddAuthenticNTS(t, v)
 		}
 		p.Payload, p.DstPort = b, vSCIONPort
+		// time requests addressed to other UDP ports: 0 and 1 (the ports of the local addresses the forwarder
+		// and the listeners were started with), the end-host port, the standard NTP port, an application's
+		if target == "disp" || rapid.IntRange(0, 2).Draw(t, "nts-other-port") == 0 {
+			p.DstPort = uint16(rapid.SampledFrom([]int{0, 1, 1, 30041, 123, appPortC08, vSCIONPort}).Draw(t, "nts-port"))
+		}
 	case "scmp-echo":
 		p.SCMP = &wire.SCMPSpec{Type: slayers.SCMPTypeEchoRequest, Identifier: 7, Seq: 9, Data: rapid.SliceOfN(rapid.Byte(), 0, 64).Draw(t, "echo")}
 	case "scmp-tr":
